@@ -36,6 +36,74 @@ theorem C08_gen_whitespace :
   rw [e1, e2, e3, e4]
   omega
 
+/-- **the reader's verdict table is the model's**: for every token kind (white space, text,
+comment, processing instructions with target `xml`, `XML`, `xml-stylesheet` and another,
+directive, stream error, stream restart, other stream-namespace element, ordinary element,
+closing tag) at nesting depth 0, 1 and 2 of an established stream, the verdict observed on the
+real reader (regenerated on every run through real sessions) is `verdict` of the model — in
+particular an XML declaration is *not* skipped once the stream is established -/
+theorem C08_gen_verdicts :
+    ∃ t, Generated.C08.readerVerdicts = some t ∧ t.length = 37 ∧
+      ∀ e ∈ t, factVerdict e.1 e.2.1 = some e.2.2 := by
+  refine ⟨_, rfl, by decide, by decide⟩
+
+/-- while a stream header is expected only white space and an XML declaration (target exactly
+`xml`) may precede it; every other construct ends the negotiation with its error -/
+theorem C08_gen_header_verdicts :
+    Generated.C08.headerVerdicts = some [
+      ("ws", "header-reached"), ("text", "chardata"), ("comment", "comment"),
+      ("pi-xml", "header-reached"), ("pi-XML", "procinst"), ("pi-stylesheet", "procinst"),
+      ("pi-x", "procinst"), ("directive", "directive")] := by decide
+
+/-! ### whatever the output state is -/
+
+/-- a step that does not begin with an element's start tag — every stream-level construct at
+top level, a keep-alive, the closing tag, a decoder error — is the same whether or not the
+local side has already closed its output: `Serve` returns the construct's error in both cases
+(all the `C08_top_*` theorems carry over) -/
+theorem C08_stream_level_any_output_state (cfg : Cfg) (closed : Bool) (rs : RS) (prog : Prog)
+    (h : ∀ n as rs1, ({ rs with dOut := 0, sticky := none } : RS).next ≠ (.tok (.start n as), rs1)) :
+    handleInputStreamC cfg closed rs prog = handleInputStream cfg rs prog := by
+  unfold handleInputStreamC
+  generalize hn : ({ rs with dOut := 0, sticky := none } : RS).next = r at h
+  obtain ⟨rd, rs1⟩ := r
+  cases rd with
+  | tok t =>
+    cases t with
+    | start n as => exact absurd rfl (h n as rs1)
+    | _ => rfl
+  | err e => rfl
+  | eof => rfl
+
+/-- with the output open and a handler that does not close it the closed-output model is the
+model of the other theorems -/
+theorem C08_open_output (cfg : Cfg) (rs : RS) (prog : Prog) (hc : prog.close = false) :
+    handleInputStreamC cfg false rs prog = handleInputStream cfg rs prog := by
+  unfold handleInputStreamC handleInputStream
+  generalize ({ rs with dOut := 0, sticky := none } : RS).next = r
+  obtain ⟨rd, rs1⟩ := r
+  cases rd with
+  | tok t => cases t <;> simp [handleElemC, hc]
+  | err e => rfl
+  | eof => rfl
+
+/-- on a closed output an element never makes `Serve` return nil either: the step goes on to
+the next element (nothing written) or ends with an error — the handler's, the output-closed
+error of an attempted write, or the error of a stream-level construct inside the element -/
+theorem C08_closed_output_never_clean (cfg : Cfg) (closed : Bool) (n : Name) (as : List Attr) (rs1 : RS)
+    (prog : Prog) (inv : Option Inv) (w : List Tok) :
+    handleElemC cfg closed n as rs1 prog ≠ .stop inv w .clean := by
+  unfold handleElemC
+  split
+  · exact handleElem_never_clean cfg n as rs1 prog inv w
+  · split
+    · simp only
+      repeat' split
+      all_goals simp
+    · intro h
+      obtain ⟨w', hw⟩ := dropWritten_clean h
+      exact handleElem_never_clean cfg n as rs1 prog inv w' hw
+
 /-! ### stream-level input never reaches a handler -/
 
 /-- **nothing stream-level is ever visible**: for every input and all handler programs, every
